@@ -300,7 +300,7 @@ impl Sys {
             st.insert(
                 "em".into(),
                 json!({"genesis": limbs64(c.epoch_config.genesis_epoch.u64()), "duration": limbs64(c.epoch_config.duration.u64()),
-                       "cur": match self.cur_epoch() { Some(e) => json!(e), None => json!("none") }}),
+                       "cur": match self.cur_epoch() { Some(e) => json!(e), None => json!(-1) }}),
             );
         }
         if mask.farms {
@@ -341,7 +341,7 @@ impl Sys {
                 p.identifier.clone(),
                 json!({"owner": self.sym_of(p.receiver.as_str()), "lp": self.dsym(&p.lp_asset.denom), "amt": u(p.lp_asset.amount),
                        "dur": limbs64(p.unlocking_duration), "open": p.open,
-                       "expiring": match p.expiring_at { Some(t) => limbs64(t), None => json!("none") }}),
+                       "expiring": match p.expiring_at { Some(t) => json!({"set": true, "t": limbs64(t)}), None => json!({"set": false, "t": []}) }}),
             );
         }
         // weight history: for every tracked account and LP denom, the sparse map epoch -> weight,
